@@ -23,4 +23,4 @@ tier="${2:-${VERIF_TIER:-quick}}"
 if [ "$tier" = "thorough" ]; then
   exec "$VERIF/thorough.sh" "$prop"
 fi
-exec "$VERIF/bin/vcheck" -repo "$REPO" -verif "$VERIF" -prop "$prop" -tier "$tier"
+exec timeout 900 "$VERIF/bin/vcheck" -repo "$REPO" -verif "$VERIF" -prop "$prop" -tier "$tier"
